@@ -294,7 +294,9 @@ func genCase(r *rand.Rand, name string, nSets, nCells, nBlocks, T int) *modelCas
 				row[k] = uni(r, 0, 2)
 			}
 		case "Storage":
-			row[0] = uni(r, 0, 5e6)
+			// (not below 1e5 m3: a storage that runs dry within a timestep makes the unchanged model panic -- the recorded
+			// C13 finding -- and with hundreds of cells some draw would get there)
+			row[0] = uni(r, 1e5, 5e6)
 		default:
 			for k := 0; k < ns; k++ {
 				row[k] = uni(r, 0, 5)
